@@ -727,8 +727,10 @@ func checkAndPropagateArgsForUnionWithReturnT(
 			return nil, err
 		}
 
+		// the result is built on copies: methodTs are the entries of the method
+		// table itself
 		if returnT == nil {
-			returnT = methodTs[idx]
+			returnT = methodTs[idx].DeepCopy()
 
 			continue
 		}
@@ -740,9 +742,10 @@ func checkAndPropagateArgsForUnionWithReturnT(
 		}
 
 		if methodTs[idx].IsUnionType() {
-			methodTs[idx].AppendVariant(*returnT)
+			unionT := methodTs[idx].DeepCopy()
+			unionT.AppendVariant(*returnT)
 
-			returnT = base.MakeUnion(methodTs[idx].GetVariants())
+			returnT = base.MakeUnion(unionT.GetVariants())
 
 			continue
 		}
